@@ -42,6 +42,8 @@ theorem SeqOp.apply_map {α β} (f : α → β) (g : Regs α) (op : SeqOp α) :
     · rw [← Regs.map, Regs.map_put]; simp [Regs.map, List.map_set]
     · rfl
 
+  | obs r => rfl
+
 theorem SeqOp.run_map {α β} (f : α → β) (ops : List (SeqOp α)) : ∀ g : Regs α,
     (SeqOp.run g ops).map f = SeqOp.run (g.map f) (ops.map (SeqOp.map f)) := by
   induction ops with
